@@ -1,0 +1,68 @@
+//go:build verif
+
+package remote
+
+// Contracts for the deductive verifier in /verif (govc). Comments only; compiled solely with -tags verif.
+
+// ---------------------------------------------------------------------------------------------
+// Canonical directory messages (C28)
+//
+// hasChild answers exactly "is there a child directory node of that name".
+//@ func hasChild
+//@   requires dir != nil
+//@   requires forall i int :: 0 <= i && i < len(dir.Directories) ==> dir.Directories[i] != nil
+//@   modifies nothing
+//@   invariant "range dir.Directories" none: forall k int :: 0 <= k && k < idx ==> dir.Directories[k].Name != child
+//@   ensures exact [C28]: result == (exists k int :: 0 <= k && k < len(dir.Directories) && dir.Directories[k].Name == child)
+
+// (dirBuilder).walk: the Directory message handed to the digest computation (uploadinfo.EntryFromProto) lists
+// its files, its directories and its symlinks in STRICTLY increasing name order (each entry's name is greater than its predecessor's: sorted, and no name twice),
+// whatever order they were added in. The sort is the assumed in-place permutation contract of sort.Slice plus
+// its ordering consequence for the less function given; the three de-duplication loops are proved with
+// invariants (`last` is the name of the last entry looked at, and of the last entry kept).
+//@ func (dirBuilder).walk
+//@   requires b != nil
+//@   opt nopanic=off
+//@   opt permutation=multiset
+//@   opt precall=off
+//@   invariant "range files" sorted: forall i int :: 0 < i && i < len(dir.Files) ==> dir.Files[i-1].Name < dir.Files[i].Name
+//@   invariant "range files" kept: len(dir.Files) > 0 ==> dir.Files[len(dir.Files)-1].Name == last
+//@   invariant "range files" bounded: len(dir.Files) <= idx
+//@   invariant "range files" seen: idx > 0 ==> last == files[idx-1].Name
+//@   invariant "range dirs" sorted: forall i int :: 0 < i && i < len(dir.Directories) ==> dir.Directories[i-1].Name < dir.Directories[i].Name
+//@   invariant "range dirs" kept: len(dir.Directories) > 0 ==> dir.Directories[len(dir.Directories)-1].Name == last
+//@   invariant "range dirs" bounded: len(dir.Directories) <= idx
+//@   invariant "range dirs" seen: idx > 0 ==> last == dirs[idx-1].Name
+//@   invariant "range dirs" files_done: forall i int :: 0 < i && i < len(dir.Files) ==> dir.Files[i-1].Name < dir.Files[i].Name
+//@   invariant "range syms" sorted: forall i int :: 0 < i && i < len(dir.Symlinks) ==> dir.Symlinks[i-1].Name < dir.Symlinks[i].Name
+//@   invariant "range syms" kept: len(dir.Symlinks) > 0 ==> dir.Symlinks[len(dir.Symlinks)-1].Name == last
+//@   invariant "range syms" bounded: len(dir.Symlinks) <= idx
+//@   invariant "range syms" seen: idx > 0 ==> last == syms[idx-1].Name
+//@   invariant "range syms" files_done: forall i int :: 0 < i && i < len(dir.Files) ==> dir.Files[i-1].Name < dir.Files[i].Name
+//@   invariant "range syms" dirs_done: forall i int :: 0 < i && i < len(dir.Directories) ==> dir.Directories[i-1].Name < dir.Directories[i].Name
+//@   callsite uploadinfo.EntryFromProto files_strictly_sorted [C28]: \
+//@      forall i int :: 0 < i && i < len(dir.Files) ==> dir.Files[i-1].Name < dir.Files[i].Name
+//@   callsite uploadinfo.EntryFromProto directories_strictly_sorted [C28]: \
+//@      forall i int :: 0 < i && i < len(dir.Directories) ==> dir.Directories[i-1].Name < dir.Directories[i].Name
+//@   callsite uploadinfo.EntryFromProto symlinks_strictly_sorted [C28]: \
+//@      forall i int :: 0 < i && i < len(dir.Symlinks) ==> dir.Symlinks[i-1].Name < dir.Symlinks[i].Name
+
+// buildEnv: the environment variables of a Command are sorted by name whatever order the map yields them in
+// (the ordering consequence of slices.SortFunc for the comparison function given is assumed).
+//@ func (Client).buildEnv
+//@   requires c != nil && c.state != nil && c.state.Config != nil && env != nil
+//@   opt nopanic=off
+//@   opt permutation=multiset
+//@   ensures sorted_by_name [C28]: forall i int :: 0 < i && i < len(result) ==> result[i-1].Name <= result[i].Name
+//
+// buildCommand: the per-target `export K=V` prefix lists the keys of target.Env in increasing
+// order (ghost `lastkey`: the key written by the previous Fprintf), not in map iteration order.
+//@ func (Client).buildCommand
+//@   requires c != nil && target != nil && c.state != nil
+//@   opt nopanic=off
+//@   opt inline=off
+//@   opt precall=off
+//@   opt permutation=multiset
+//@   callsite fmt.Fprintf track lastkey string: k
+//@   invariant "range keys" in_order: (idx > 0 ==> called("fmt.Fprintf") && lastkey == keys[idx-1]) && (idx == 0 ==> !called("fmt.Fprintf"))
+//@   callsite fmt.Fprintf exports_in_key_order [C28]: called("fmt.Fprintf") ==> lastkey <= k
